@@ -598,6 +598,11 @@ func checkRead(cl *s3c.Client, kind, path, key string, m *obj, where string) err
 			return fmt.Errorf("%s: header %s reads back as %q, the write the key holds supplied none", where, k, got)
 		}
 	}
+	if _, supplied := m.Hdrs["content-type"]; !supplied {
+		if got := r.Header.Get("Content-Type"); got != "" && got != "binary/octet-stream" {
+			return fmt.Errorf("%s: header Content-Type reads back as %q, the write the key holds supplied none", where, got)
+		}
+	}
 	gotMeta := map[string]string{}
 	for k, v := range r.Header {
 		if lk := strings.ToLower(k); strings.HasPrefix(lk, "x-amz-meta-") {
@@ -736,12 +741,12 @@ func tagsGen() *rapid.Generator[[]s3c.Tag] {
 		seen := map[string]bool{}
 		var out []s3c.Tag
 		for i := 0; i < n; i++ {
-			k := rapid.StringMatching(`[A-Za-z0-9_.:/@-]{1,10}`).Draw(t, "tk")
+			k := rapid.StringMatching(`[A-Za-z0-9_.:/@+=-]{1,10}`).Draw(t, "tk")
 			if seen[k] {
 				continue
 			}
 			seen[k] = true
-			out = append(out, s3c.Tag{Key: k, Value: rapid.StringMatching(`[A-Za-z0-9_.:/@ -]{0,10}`).Draw(t, "tv")})
+			out = append(out, s3c.Tag{Key: k, Value: rapid.StringMatching(`[A-Za-z0-9_.:/@+= -]{0,10}`).Draw(t, "tv")})
 		}
 		return out
 	})
